@@ -19,6 +19,7 @@ def toSituation : String → Except String Situation
   | "presentNoOwnerRef" => pure .presentNoOwnerRef
   | "absentConflict" => pure .absentConflict
   | "presentDriftedRejected" => pure .presentDriftedRejected
+  | "presentVanished" => pure .presentVanished
   | s => throw s!"bad situation {s}"
 
 def actionName : Action → String
